@@ -27,7 +27,8 @@ impl Check for C05 {
             max_entries: tier.pick(30, 80),
             bulk_n: tier.pick(500, 3000),
             big_values: false,
-            rollback: false,
+            rollback: 0,
+            rollback_weight: 0,
             reopen_weight: 15,
             overlay_weight: 25,
             witness_weight: 0.0,
